@@ -4,7 +4,8 @@
   Spec: `conforms` (docs/spec/types.md) and the invariant "once a schema is declared every stored tuple
   conforms; an insert with a non-conforming tuple changes nothing; a conforming insert is accepted".
   After the repairs (schema declaration validates existing data; `Update` validates before writing) the
-  invariant holds along every history; request-local facts remain unvalidated (answers, not stored data).
+  invariant holds along every history; after the third repair request-local facts are validated too, so
+  every answer conforms as well: `C33_statement` is the theorem `C33`.
 -/
 import ILV.Model.Schema
 import ILV.Gen.C33
@@ -150,7 +151,7 @@ theorem step_preserves_inv (s : SState) (op : SOp) (hi : s.inv = true) : (s.step
           simp only [validateBatch, List.all_cons, List.all_nil, Bool.and_true] at hv'
           simp only [SState.inv]
           simp [← validateTuple_eq_conformsTuple, hv']
-  | fact t => exact hi
+  | fact t => simp only [SState.step]; split <;> exact hi
   | validate ts => exact hi
   | query => exact hi
 
@@ -162,10 +163,68 @@ theorem run_preserves_inv (ops : List SOp) : ∀ s : SState, s.inv = true → (S
     simp only [SState.run]
     exact ih _ (step_preserves_inv s op hi)
 
-/-- **C33 (stored tuples)**: along every history of declarations, inserts, updates, request-local facts,
-    validations and queries, once a schema is declared every stored tuple of the relation conforms to it. -/
-theorem C33 (ops : List SOp) : (SState.run SState.init ops).1.inv = true :=
-  run_preserves_inv ops SState.init rfl
+/-- every relation answer (`?r(X…)`, alone or after a request-local fact) produced while a schema is
+    declared consists of conforming tuples. -/
+def answersConform : SState → List SOp → Prop
+  | _, [] => True
+  | s, op :: ops =>
+    (match (s.step op).2, (s.step op).1.schema with
+      | .rows r, some cols => r.all (conformsTuple cols) = true
+      | _, _ => True) ∧ answersConform (s.step op).1 ops
+
+theorem step_answer_conforms (s : SState) (op : SOp) (hi : s.inv = true) :
+    match (s.step op).2, (s.step op).1.schema with
+    | .rows r, some cols => r.all (conformsTuple cols) = true
+    | _, _ => True := by
+  cases op with
+  | decl cols => by_cases h : validateBatch (some cols) s.stored = true <;> simp [SState.step, h]
+  | insert ts =>
+    by_cases h : validateBatch s.schema (ts.filter (fun t => !t.isEmpty)) = true <;> simp [SState.step, h]
+  | upd new =>
+    by_cases h1 : s.stored.isEmpty = true <;> by_cases h2 : validateBatch s.schema [new] = true <;>
+      simp [SState.step, h1, h2]
+  | validate ts => by_cases h : validateBatch s.schema ts = true <;> simp [SState.step, h]
+  | query =>
+    simp only [SState.step]
+    cases hsch : s.schema with
+    | none => simp
+    | some cols => simpa [SState.inv, hsch] using hi
+  | fact t =>
+    cases hsch : s.schema with
+    | none => by_cases hv : validateBatch none [t] = true <;> simp [SState.step, hsch, hv]
+    | some cols =>
+      have hst : ∀ x ∈ s.stored, conformsTuple cols x = true := by
+        have : s.stored.all (conformsTuple cols) = true := by simpa [SState.inv, hsch] using hi
+        simpa using this
+      by_cases hv : validateBatch (some cols) [t] = true
+      · have hv' : validateTuple cols t = true := by simpa [validateBatch] using hv
+        simp only [SState.step, hsch, hv, Bool.not_true, Bool.false_eq_true, if_false, List.all_eq_true]
+        intro x hx
+        rcases mem_insertSet _ _ x hx with h | h
+        · exact hst x h
+        · simp at h; subst h; rw [← validateTuple_eq_conformsTuple]; exact hv'
+      · have hv2 : validateBatch (some cols) [t] = false := by
+          cases h : validateBatch (some cols) [t] with
+          | true => exact absurd h hv
+          | false => rfl
+        simp only [SState.step, hsch, hv2, Bool.not_false, if_true, List.all_eq_true]
+        exact hst
+
+theorem run_answers_conform (ops : List SOp) : ∀ s : SState, s.inv = true → answersConform s ops := by
+  induction ops with
+  | nil => intro s _; trivial
+  | cons op ops ih =>
+    intro s hi
+    exact ⟨step_answer_conforms s op hi, ih _ (step_preserves_inv s op hi)⟩
+
+/-- **C33, full statement**: along every history of declarations, inserts, updates, request-local facts,
+    validations and queries: once a schema is declared every stored tuple of the relation conforms to it,
+    and so does every tuple any query of the relation answers (request-local facts included). -/
+def C33_statement : Prop :=
+  ∀ ops : List SOp, (SState.run SState.init ops).1.inv = true ∧ answersConform SState.init ops
+
+theorem C33 : C33_statement :=
+  fun ops => ⟨run_preserves_inv ops SState.init rfl, run_answers_conform ops SState.init rfl⟩
 
 /-- a declaration over non-conforming data and an update with a non-conforming tuple are refused and
     change nothing (the two former defect families). -/
@@ -186,12 +245,12 @@ theorem update_with_bad_tuple_refused (s : SState) (cols : List SType) (new : Tu
       rw [hs]; simp [validateBatch, validateTuple_eq_conformsTuple, hc]
     simp [hv]
 
-/-- remaining defect (answers, not stored tuples): a request-local fact is never validated — the request's
-    query answers it as a tuple of the relation. -/
-theorem C33_session_fact_unvalidated :
-    ∃ rows, (SState.run SState.init [.decl [.int], .insert [[.i64 1]], .fact [.str [120]]]).2.getLast? = some (.rows rows) ∧
-      rows.all (conformsTuple [.int]) = false := by
-  refine ⟨[[.i64 1], [.str [120]]], by decide, by decide⟩
+/-- a non-conforming request-local fact is dropped; the request's query answers the stored tuples only. -/
+theorem fact_with_bad_tuple_dropped (s : SState) (cols : List SType) (t : Tuple) (hs : s.schema = some cols)
+    (hc : conformsTuple cols t = false) : s.step (.fact t) = (s, .rows s.stored) := by
+  have hv : validateBatch s.schema [t] = false := by
+    rw [hs]; simp [validateBatch, validateTuple_eq_conformsTuple, hc]
+  simp [SState.step, hv]
 
 /-- non-trivial instance: data first, a refused declaration, the offending tuple replaced, the declaration
     accepted, a rejected mixed batch, a refused update, accepted inserts. -/
